@@ -242,7 +242,7 @@ Definition cstep (s : cst) (e : cev) : cst * list cout :=
   end.
 
 (* ================================================================== HTTP *)
-Record hresp := MkResp { h_cseq : option N; h_code : N; h_tag : N }.
+Record hresp := MkResp { h_cseq : option nat; h_code : N; h_tag : N }.
 
 (* what connection.send_and_receive does with a response once the request resumes *)
 Inductive hres := HROk (r : hresp) | HRAuth (r : hresp) | HRHttp (r : hresp).
@@ -322,32 +322,32 @@ Definition hstep (s : hst) (e : hev) : hst * list hout :=
 (* ================================================================== RTSP *)
 Record rst := MkR {
   r_http : hst;
-  r_next : N;                                      (* self.cseq *)
-  r_reqs : list (N * (nat * option hresp));        (* self.requests: CSeq -> (Event, response) *)
-  r_ph1 : list (nat * N);                          (* inside connection.send_and_receive: own CSeq *)
-  r_ph2 : list (nat * N)                           (* waiting for the Event of the own CSeq *)
+  r_next : nat;                                    (* self.cseq *)
+  r_reqs : list (nat * (nat * option hresp));      (* self.requests: CSeq -> (Event, response) *)
+  r_ph1 : list (nat * nat);                        (* inside connection.send_and_receive: own CSeq *)
+  r_ph2 : list (nat * nat)                         (* waiting for the Event of the own CSeq *)
 }.
 Definition r_init : rst := MkR h_init 0 [] [] [].
 
-Inductive rev :=
+Inductive rtev :=
 | RReq (w : nat) (allow : bool) | RResp (r : hresp) | RWake (w : nat) | RTimeout (w : nat) | RCancel (w : nat).
 
 (* "insert response for correct CSeq and activate event" *)
-Definition r_file (r : hresp) (reqs : list (N * (nat * option hresp))) :=
+Definition r_file (r : hresp) (reqs : list (nat * (nat * option hresp))) :=
   match h_cseq r with
   | Some c =>
-      match aget N.eqb c reqs with
-      | Some (o, _) => aset N.eqb c (o, Some r) reqs
+      match aget Nat.eqb c reqs with
+      | Some (o, _) => aset Nat.eqb c (o, Some r) reqs
       | None => reqs
       end
   | None => reqs
   end.
 
-Definition rstep (s : rst) (e : rev) : rst * list hout :=
+Definition rstep (s : rst) (e : rtev) : rst * list hout :=
   match e with
   | RReq w allow =>
-      (MkR (h_req w allow (r_http s)) (N.succ (r_next s))
-           (aset N.eqb (r_next s) (w, None) (r_reqs s))
+      (MkR (h_req w allow (r_http s)) (S (r_next s))
+           (aset Nat.eqb (r_next s) (w, None) (r_reqs s))
            (aset Nat.eqb w (r_next s) (r_ph1 s)) (r_ph2 s), [])
   | RResp r => (MkR (h_resp r (r_http s)) (r_next s) (r_reqs s) (r_ph1 s) (r_ph2 s), [])
   | RWake w =>
@@ -356,9 +356,9 @@ Definition rstep (s : rst) (e : rev) : rst * list hout :=
           match h_wake w (r_http s) with
           | Some (hs', HROk r) =>
               let reqs' := r_file r (r_reqs s) in
-              match aget N.eqb c reqs' with
+              match aget Nat.eqb c reqs' with
               | Some (_, Some r') =>         (* own Event already set: no suspension *)
-                  (MkR hs' (r_next s) (adel N.eqb c reqs') (adel Nat.eqb w (r_ph1 s)) (r_ph2 s),
+                  (MkR hs' (r_next s) (adel Nat.eqb c reqs') (adel Nat.eqb w (r_ph1 s)) (r_ph2 s),
                    [HDeliver w r'])
               | _ =>
                   (MkR hs' (r_next s) reqs' (adel Nat.eqb w (r_ph1 s)) (aset Nat.eqb w c (r_ph2 s)), [])
@@ -370,9 +370,9 @@ Definition rstep (s : rst) (e : rev) : rst * list hout :=
       | None =>
           match aget Nat.eqb w (r_ph2 s) with
           | Some c =>
-              match aget N.eqb c (r_reqs s) with
+              match aget Nat.eqb c (r_reqs s) with
               | Some (_, Some r') =>
-                  (MkR (r_http s) (r_next s) (adel N.eqb c (r_reqs s)) (r_ph1 s) (adel Nat.eqb w (r_ph2 s)),
+                  (MkR (r_http s) (r_next s) (adel Nat.eqb c (r_reqs s)) (r_ph1 s) (adel Nat.eqb w (r_ph2 s)),
                    [HDeliver w r'])
               | _ => (s, [])
               end
@@ -390,7 +390,7 @@ Definition rstep (s : rst) (e : rev) : rst * list hout :=
       | None =>
           match aget Nat.eqb w (r_ph2 s) with
           | Some c =>
-              (MkR (r_http s) (r_next s) (adel N.eqb c (r_reqs s)) (r_ph1 s) (adel Nat.eqb w (r_ph2 s)), [o])
+              (MkR (r_http s) (r_next s) (adel Nat.eqb c (r_reqs s)) (r_ph1 s) (adel Nat.eqb w (r_ph2 s)), [o])
           | None => (s, [])
           end
       end
@@ -435,7 +435,7 @@ Definition comp_check (c : N * list cev * list cout * list cout) : bool :=
   && match c_wait (final cstep (c_init x0) h) with [] => true | _ => false end.
 
 Definition hresp_eqb (a b : hresp) : bool :=
-  optN_eqb (h_cseq a) (h_cseq b) && N.eqb (h_code a) (h_code b) && N.eqb (h_tag a) (h_tag b).
+  opt_beq Nat.eqb (h_cseq a) (h_cseq b) && N.eqb (h_code a) (h_code b) && N.eqb (h_tag a) (h_tag b).
 Definition hout_eqb (a b : hout) : bool :=
   match a, b with
   | HDeliver w r, HDeliver w' r' | HHttpErr w r, HHttpErr w' r' => Nat.eqb w w' && hresp_eqb r r'
@@ -449,7 +449,7 @@ Definition http_check (c : list hev * list hout) : bool :=
   list_beq hout_eqb (outs hstep h_init h) outcomes
   && match h_wait (final hstep h_init h) with [] => true | _ => false end.
 
-Definition rtsp_check (c : list rev * list hout) : bool :=
+Definition rtsp_check (c : list rtev * list hout) : bool :=
   let '(h, outcomes) := c in
   let f := final rstep r_init h in
   list_beq hout_eqb (outs rstep r_init h) outcomes
